@@ -39,6 +39,7 @@ struct State {
     abort: Option<&'static str>, // "livelock" | "budget"
     fuse: Vec<(&'static str, &'static str)>,
     sites: Option<Vec<&'static str>>,
+    explicit: Option<Vec<(u64, usize)>>,
 }
 
 struct Inner {
@@ -64,6 +65,9 @@ pub struct SchedOpts {
     pub max_steps: u64,
     /// run every logical thread on a brand-new OS thread (fresh thread-locals) instead of the pool
     pub fresh_threads: bool,
+    /// explicit schedule (for bounded-exhaustive enumeration): run thread 0 first and switch to
+    /// the given thread when the global step counter reaches the given value; ignores the bytes
+    pub explicit: Option<Vec<(u64, usize)>>,
 }
 
 #[derive(Debug)]
@@ -92,6 +96,15 @@ fn pick_next(st: &mut State, me: usize, me_can_continue: bool) -> Option<usize> 
     let others: Vec<usize> = (0..st.threads.len())
         .filter(|&t| t != me && st.threads[t].status != Status::Done && !st.threads[t].spinning)
         .collect();
+    if let Some(ex) = &st.explicit {
+        let want = ex.iter().find(|(s, _)| *s == st.steps).map(|(_, t)| *t);
+        if let Some(t) = want {
+            if t != me && others.contains(&t) {
+                return Some(t);
+            }
+        }
+        return if me_can_continue { Some(me) } else { others.first().copied() };
+    }
     if st.pos < st.choices.len() {
         let b = st.choices[st.pos];
         st.pos += 1;
@@ -250,6 +263,7 @@ pub fn explore(choices: &[u8], opts: SchedOpts, threads: Vec<Box<dyn FnOnce() + 
             abort: None,
             fuse: opts.fuse.clone(),
             sites: opts.sites.clone(),
+            explicit: opts.explicit.clone(),
         }),
         cv: Condvar::new(),
     });
@@ -270,7 +284,9 @@ pub fn explore(choices: &[u8], opts: SchedOpts, threads: Vec<Box<dyn FnOnce() + 
     let drive = |inner: &Arc<Inner>| {
         // start: pick first thread by the first schedule choice
         let mut st = inner.m.lock().unwrap();
-        let first = if st.pos < st.choices.len() {
+        let first = if st.explicit.is_some() {
+            0
+        } else if st.pos < st.choices.len() {
             let b = st.choices[st.pos];
             st.pos += 1;
             (b as usize * n) >> 8
